@@ -7,7 +7,7 @@ RULE = ("TV in BOTH build profiles (release, release+overflow-checks): for every
         "(uniform / sparse / dense / saturated random bodies of lengths 2..1023, generated frames with 1-8 payload bit flips and refreshed CRC, "
         "generated frames cut at a random byte and re-framed, structure-aware frames: SSR bias lists with maximal counts and reserved codes, "
         "MSM masks with |S|x|G| in {0,1,64,65,...,2048}); frames found by MsgFrameIter in raw random / grammar buffers up to 3000 bytes; every "
-        "outcome must be a documented one of the class Dispatch allows, decoded floats finite, message self-equal; with the parse hook on, "
+        "outcome must be a documented one of the class Dispatch allows AND the class the Decoder specification derives from the extracted layout (fixed-size messages: typed iff the body holds all bits; single-list messages: Corrupt iff count > capacity or body shorter than the count implies; MSM: empty / |S|x|G| in 1..64 / body holds masks, satellite rows and one signal row per set cell; 96 of 108 types have a fixed class), decoded floats finite, message self-equal; with the parse hook on, "
         "every Parser::parse of the call must be a BitIO parse step at the spec cursor inside the payload; a watchdog turns a call exceeding "
         "10 s into a hang; MC: BitIO parse loops = declarative (MC_BitIO); non-trivial = frame carrying a supported number; distinct = distinct frames")
 
